@@ -9,6 +9,7 @@ import (
 	"strings"
 	"time"
 
+	"github.com/mandykoh/prism/zverif/vatomic"
 	"github.com/mandykoh/prism/zverif/vrt"
 	"github.com/mandykoh/prism/zverif/vsync"
 )
@@ -34,6 +35,7 @@ func litmusTests() []litmus {
 	var c int
 	var p *int
 	var data, flag int
+	var flag32 uint32
 	var mu, a, b vsync.Mutex
 	var once vsync.Once
 	var wg vsync.WaitGroup
@@ -100,6 +102,36 @@ func litmusTests() []litmus {
 					}
 					return "not yet"
 				}},
+			wantKind: "race"},
+		{name: "publication through an atomic store and load", reset: func() { data, flag32 = 0, 0 },
+			threads: []func() string{
+				func() string { *vrt.W(&data) = 5; vatomic.StoreUint32(&flag32, 1); return "" },
+				func() string {
+					if vatomic.LoadUint32(&flag32) == 1 {
+						_ = *vrt.R(&data)
+					}
+					return ""
+				}},
+			wantKind: "", wantAll: true},
+		{name: "atomic flag claimed before the data is written", reset: func() { data, flag32 = 0, 0 },
+			threads: []func() string{
+				func() string {
+					if vatomic.CompareAndSwapUint32(&flag32, 0, 1) {
+						*vrt.W(&data) = 5
+					}
+					return ""
+				},
+				func() string {
+					if vatomic.LoadUint32(&flag32) == 1 {
+						_ = *vrt.R(&data)
+					}
+					return ""
+				}},
+			wantKind: "race"},
+		{name: "atomic store against a plain read of the same word", reset: func() { flag32 = 0 },
+			threads: []func() string{
+				func() string { vatomic.StoreUint32(&flag32, 1); return "" },
+				func() string { _ = *vrt.R(&flag32); return "" }},
 			wantKind: "race"},
 		{name: "result aliasing a pooled buffer", reset: func() { pool = &vsync.Pool{New: func() any { return new([1]int) }} },
 			threads: func() []func() string {
